@@ -174,9 +174,9 @@ func failsWithError(b *ssa.BasicBlock, fn *ssa.Function, depth int, seen map[*ss
 }
 
 var i4Exceptions = map[string]string{
-	"(starlark.rangeValue).contains: AsInt failure":       "a value that does not fit in a Go int cannot be an element of a range whose bounds are Go ints: answering False is exact",
-	"(starlark.Int).Float: Int64 failure":                  "",
-	"(starlark.Int).finiteFloat: failure":                  "",
+	"(starlark.rangeValue).contains: AsInt failure": "a value that does not fit in a Go int cannot be an element of a range whose bounds are Go ints: answering False is exact",
+	"(starlark.Int).Float: Int64 failure":           "",
+	"(starlark.Int).finiteFloat: failure":           "",
 }
 
 func ruleI4(c *Ctx) {
@@ -305,13 +305,13 @@ func ruleI4(c *Ctx) {
 // ---------- I5 ----------
 
 var i5Allowed = map[string]string{
-	"starlark.int_":                 "int(x): the specification truncates towards zero",
-	"starlark.NumberToInt":          "the conversion primitive itself",
-	"(starlark.Float).Hash":         "hash of the equal int (only integral floats equal an int)",
-	"lib/math.ceil":                 "argument is already integral (math.Ceil)",
-	"lib/math.floor":                "argument is already integral (math.Floor)",
-	"lib/math.round":                "argument is already integral (math.Round)",
-	"starlark.interpolate":          "%d %x %o %c verbs: the specification converts the operand with int()",
+	"starlark.int_":                    "int(x): the specification truncates towards zero",
+	"starlark.NumberToInt":             "the conversion primitive itself",
+	"(starlark.Float).Hash":            "hash of the equal int (only integral floats equal an int)",
+	"lib/math.ceil":                    "argument is already integral (math.Ceil)",
+	"lib/math.floor":                   "argument is already integral (math.Floor)",
+	"lib/math.round":                   "argument is already integral (math.Round)",
+	"starlark.interpolate":             "%d %x %o %c verbs: the specification converts the operand with int()",
 	"(*starlark.Builtin).CallInternal": "",
 }
 
